@@ -137,7 +137,11 @@ func c14Worker(sh *explore.Shard) {
 				for _, v := range cv {
 					cfg = append(cfg, mrepo.ConfigEntry{Key: keySpelling, Value: v})
 				}
-				c14Seqs(opts, maxLen, func(seq []c14Opt) {
+				ml := maxLen
+				if name == "threshold" && len(cv) <= 1 && keySpelling == cfgKey && (len(cv) == 0 || cv[0] == "0") {
+					ml = 3 // "the last one given wins" needs a repeated option with another in between
+				}
+				c14Seqs(opts, ml, func(seq []c14Opt) {
 					idx++
 					if !sh.Mine(idx) || sh.Expired() {
 						return
@@ -318,6 +322,6 @@ func tailBytes(b []byte, n int) string {
 
 func init() {
 	Registry["C14"] = &Check{Level: "exploration", Worker: c14Worker, QuickBudget: 80 * time.Second, ThoroughBudget: 12 * time.Minute,
-		Rule:        "real binary + real git on a materialised repository whose metrics sit in every threshold band; per option family the full product (gitconfig value: absent/valid/invalid/multi-valued, two key spellings) x (every option sequence of length <=2 quick / <=3 thorough over the family's option alphabet); expected = byte-identical stdout and exit status of the canonical run with the effective value spelled out (effective = last option of the family, else config, else default; invalid config with no option = clean error); progress observed on stderr; 21 documented equivalent-spelling pairs x 5 contexts must give identical stdout, exit status and --show-refs marks. non-trivial = every case (all involve a config/option combination)",
+		Rule:        "real binary + real git on a materialised repository whose metrics sit in every threshold band; per option family the full product (gitconfig value: absent/valid/invalid/multi-valued, two key spellings) x (every option sequence of length <=2 quick / <=3 thorough over the family's option alphabet; the threshold family always up to length 3 for the absent and 0 configuration); expected = byte-identical stdout and exit status of the canonical run with the effective value spelled out (effective = last option of the family, else config, else default; invalid config with no option = clean error); progress observed on stderr; 21 documented equivalent-spelling pairs x 5 contexts must give identical stdout, exit status and --show-refs marks. non-trivial = every case (all involve a config/option combination)",
 		Assumptions: []string{"git 2.39.5 interprets the configuration file", "the canonical run (all settings spelled out, no sizer.* configuration) defines what a value means; C11/C08 own the content of a report"}}
 }
